@@ -325,6 +325,7 @@ func (c *Conn) handleControl(ctx context.Context, h header) (err error) {
 	}
 
 	err = fmt.Errorf("received close frame: %w", ce)
+	c.readCloseFrameErr = err
 	c.writeClose(ce.Code, ce.Reason)
 	c.readMu.unlock()
 	c.close()
